@@ -21,7 +21,7 @@ func init() {
 			"typed empty / non-empty Go slices and maps ([]string, []int, map[string]string) stand for lists and maps in truthiness probes",
 			"the reference interpreter (internal/mt) is trusted to transcribe the statement",
 		},
-		quick: 5200, thorough: 110000, minQuick: 1500, minThorough: 20000,
+		quick: 40000, thorough: 500000, minQuick: 10000, minThorough: 100000,
 	}})
 }
 
